@@ -127,7 +127,9 @@ def check(chk: Check) -> None:
                         if not ok:
                             problems.append('%r returns %s, not the comparison <left> %s <right>' % (op, show(ret), op))
                     else:
-                        problems.append('operator %r has no reference kind in the checker' % op)
+                        note = 'binary operator %r is not part of the reference semantics: its value is not decided' % op
+                        if note not in chk.notes:
+                            chk.notes.append(note)
                 elif len(opfields) == 1:
                     a = res.get(opfields[0])
                     if op == '-':
